@@ -128,6 +128,59 @@ def run_diff(x, y):
         return {'err': type(e).__name__}
 
 
+def dump(s):
+    """deep structural dump of a live sliver: every attribute the comparison reads (and the identity of the value
+    objects), recursively through components / services / interfaces / sub-interfaces.  Compared before/after a
+    diff call ("operands are not modified"); never stored."""
+    if s is None:
+        return None
+
+    def fld(o):
+        return None if o is None else (id(o), copy.deepcopy(o.__dict__))
+
+    def cont(info, attr):
+        if info is None:
+            return None
+        d = getattr(info, attr)
+        out = {'oid': id(info), 'did': id(d), 'keys': list(d.keys()), 'kids': [dump(v) for v in d.values()]}
+        if hasattr(info, 'by_type'):
+            out['by_type'] = {str(k): [id(x) for x in v] for k, v in info.by_type.items()}
+        return out
+    d = {'oid': id(s), 'cls': type(s).__name__, 'name': s.resource_name, 'id': s.node_id, 'type': str(s.get_type()),
+         'lab': fld(s.labels), 'cap': fld(s.capacities),
+         'ud': None if s.user_data is None else (id(s.user_data), s.user_data._data),
+         'attrs': sorted(s.__dict__.keys()),
+         'scalars': {k: repr(v) for k, v in s.__dict__.items()
+                     if v is None or isinstance(v, (str, int, float, bool)) or hasattr(v, 'name')}}
+    if hasattr(s, 'attached_components_info'):
+        d['comps'] = cont(s.attached_components_info, 'devices')
+    if hasattr(s, 'network_service_info'):
+        d['svcs'] = cont(s.network_service_info, 'network_services')
+    if hasattr(s, 'interface_info'):
+        d['ifs'] = cont(s.interface_info, 'interfaces')
+    return d
+
+
+class Probe:
+    """runs diff calls, each TWICE on the same live pair, with deep snapshots of both operands around them"""
+
+    def __init__(self):
+        self.mutated = []
+        self.unstable = []
+
+    def diff(self, tag, x, y):
+        before = (dump(x), dump(y))
+        r1 = run_diff(x, y)
+        mid = (dump(x), dump(y))
+        r2 = run_diff(x, y)
+        after = (dump(x), dump(y))
+        if before != mid or mid != after:
+            self.mutated.append(tag)
+        if r1 != r2:
+            self.unstable.append([tag, r1, r2])
+        return r1
+
+
 # ----------------------------------------------------------------------------------------------
 # the property restated over the two specs (independent oracle)
 # ----------------------------------------------------------------------------------------------
@@ -276,6 +329,10 @@ def spurious_only(x, y, got, exp):
 def judge(case, o):
     """None or text saying what part of the property the implementation's answers violate"""
     a, b = case['a'], case['b']
+    if o.get('mutated'):
+        return 'an operand was modified by diff(): ' + ','.join(o['mutated'])
+    if o.get('unstable'):
+        return 'the same pair compared again gave another answer: ' + json.dumps(o['unstable'][0])
     if not (wellformed(a) and wellformed(b) and compatible(a, b)):
         return None            # outside the quantified domain: only the correspondence is checked
     for tag in ('aa', 'adc'):
@@ -684,8 +741,17 @@ class DiffStream(Stream):
     def observe(self, case):
         a, b = build(case['a']), build(case['b'])
         a2 = build(case['a'])
-        return {'ab': run_diff(a, b), 'ba': run_diff(b, a), 'aa': run_diff(a, a2),
-                'adc': run_diff(a, copy.deepcopy(a)), 'an': run_diff(a, None)}
+        pr = Probe()
+        o = {'ab': pr.diff('ab', a, b), 'ba': pr.diff('ba', b, a), 'aa': pr.diff('aa', a, a2),
+             'adc': pr.diff('adc', a, copy.deepcopy(a)), 'an': pr.diff('an', a, None)}
+        # once more after everything else ran on the same long-lived objects
+        again = {'ab': run_diff(a, b), 'ba': run_diff(b, a)}
+        for t in again:
+            if again[t] != o[t]:
+                pr.unstable.append([t + '-late', o[t], again[t]])
+        o['mutated'] = pr.mutated
+        o['unstable'] = pr.unstable
+        return o
 
     def to_coq(self, case, o):
         return '((%s,\n    %s),\n   (%s, %s, %s, %s))' % (c_tree(case['a']), c_tree(case['b']), c_obs(o['ab']), c_obs(o['ba']),
@@ -832,6 +898,638 @@ class MalformedS(DiffStream):
 
 
 # ----------------------------------------------------------------------------------------------
+# histories on long-lived sliver objects (edit in place, diff, edit more, diff again, undo, diff)
+# ----------------------------------------------------------------------------------------------
+CONT = {'comps': ('attached_components_info', 'devices', 'add_device', 'remove_device'),
+        'svcs': ('network_service_info', 'network_services', 'add_network_service', 'remove_network_service'),
+        'ifs': ('interface_info', 'interfaces', 'add_interface', 'remove_interface'),
+        'subs': ('interface_info', 'interfaces', 'add_interface', 'remove_interface')}
+
+
+def spec_of(s, k):
+    """the spec a LIVE sliver currently corresponds to (dict order as it is in the object)"""
+    x = {'k': k, 'name': s.resource_name, 'id': s.node_id, 'type': s.get_type().name,
+         'lab': None if s.labels is None else {f: copy.deepcopy(v) for f, v in s.labels.__dict__.items() if v is not None},
+         'cap': None if s.capacities is None else {f: v for f, v in s.capacities.__dict__.items() if v != 0},
+         'ud': None if s.user_data is None else ['text', s.user_data._data]}
+    for attr in KINDS[k]:
+        info = getattr(s, CONT[attr][0])
+        x[attr] = None if info is None else [spec_of(c, CHILD_KIND[attr]) for c in getattr(info, CONT[attr][1]).values()]
+    return x
+
+
+def same_value(x, y, fld):
+    if fld == 'ud':
+        return (x is None) == (y is None) and (x is None or (x[0] == 'text' and x == y))
+    if fld == 'cap':
+        return norm_cap(x) == norm_cap(y) and (x is None) == (y is None)
+    return x == y
+
+
+def morph(obj, new):
+    """bring a live sliver to the state described by spec `new`, IN PLACE, through the mutators of the sliver and
+    container classes (set_labels/..., add_device/remove_device, add_network_service/..., add_interface/...)"""
+    from fim.slivers.network_service import NetworkServiceInfo
+    from fim.slivers.interface_info import InterfaceInfo
+    from fim.slivers.attached_components import AttachedComponentsInfo
+    from fim.slivers.capacities_labels import Labels, Capacities
+    from fim.slivers.json_data import UserData
+    k = new['k']
+    cur = spec_of(obj, k)
+    obj.node_id = new['id']
+    if not same_value(cur['lab'], new['lab'], 'lab'):
+        obj.set_labels(None if new['lab'] is None else Labels(**new['lab']))
+    if not same_value(cur['cap'], new['cap'], 'cap'):
+        obj.set_capacities(None if new['cap'] is None else Capacities(**new['cap']))
+    if not same_value(cur['ud'], new['ud'], 'ud'):
+        obj.set_user_data(None if new['ud'] is None else UserData(new['ud'][1]))
+    for attr in KINDS[k]:
+        iattr, dattr, add, rem = CONT[attr]
+        want = new.get(attr)
+        info = getattr(obj, iattr)
+        if want is None:
+            setattr(obj, iattr, None)
+            continue
+        if info is None:
+            info = {'comps': AttachedComponentsInfo, 'svcs': NetworkServiceInfo, 'ifs': InterfaceInfo,
+                    'subs': InterfaceInfo}[attr]()
+            setattr(obj, iattr, info)
+        d = getattr(info, dattr)
+        wanted = {c['name']: c for c in want}
+        for name in list(d.keys()):
+            if name not in wanted or d[name].get_type().name != wanted[name]['type']:
+                getattr(info, rem)(name)
+        for c in want:
+            if c['name'] in d:
+                morph(d[c['name']], c)
+            else:
+                getattr(info, add)(build(c))
+
+
+def g_history(rng, level):
+    root = {'node': g_node, 'svc': lambda r: g_svc(r, 'svc1')}[level](rng)
+    a = root
+    b = copy.deepcopy(a)
+    steps = []
+    kinds = []
+    for _ in range(rng.randint(2, 5)):
+        a, b = copy.deepcopy(a), copy.deepcopy(b)
+        done = []
+        tries = 0
+        while len(done) < rng.choice([1, 1, 2]) and tries < 20:
+            tries += 1
+            e = edit(rng, a, b)
+            if e:
+                done.append(e)
+        if rng.random() < 0.15:
+            a, b = b, a             # the roles swap: what was the new version is now the old one
+            done.append('swap')
+        steps.append([a, b])
+        kinds.append(done)
+    steps.append([copy.deepcopy(a), copy.deepcopy(a)])      # undo everything: the copy is again identical
+    kinds.append(['undo'])
+    return {'level': level, 'start': root, 'steps': steps, 'edits': kinds}
+
+
+class HistoryS(DiffStream):
+    """two LONG-LIVED slivers edited in place step by step; after every step both directions are compared (twice),
+    with snapshots; the last step undoes all edits"""
+    name = 'history'
+    level = 'node'
+    case_type = 'list ((node * node) * (obs * obs * obs * obs))'
+    check_fn = 'check_node_history'
+    counts = (120, 2500)
+    shard = 60
+    rule = ('two long-lived NodeSliver trees edited IN PLACE through the sliver/container mutators for 2-5 steps (same edit '
+            'vocabulary, sometimes swapping old/new), compared after every step in both directions, each call twice, deep '
+            'snapshots of both operands around every call; the final step undoes all edits and must report nothing; the Coq '
+            'terms are re-read from the live objects; non-trivial = every history; distinct by content')
+
+    def gen(self, rng, tier):
+        n = self.counts[0] if tier == 'quick' else self.counts[1]
+        return [g_history(rng, self.level) for _ in range(n)]
+
+    def observe(self, case):
+        k = case['start']['k']
+        A, B = build(case['start']), build(case['start'])
+        out = []
+        pr = Probe()
+        for i, (sa, sb) in enumerate(case['steps']):
+            morph(A, sa)
+            morph(B, sb)
+            a, b = spec_of(A, k), spec_of(B, k)
+            o = {'a': a, 'b': b, 'ab': pr.diff('ab@%d' % i, A, B), 'ba': pr.diff('ba@%d' % i, B, A),
+                 'aa': pr.diff('aa@%d' % i, A, build(a)), 'adc': None, 'an': pr.diff('an@%d' % i, A, None)}
+            out.append(o)
+        return {'steps': out, 'mutated': pr.mutated, 'unstable': pr.unstable}
+
+    def to_coq(self, case, o):
+        return clist(['((%s,\n    %s),\n   (%s, %s, %s, %s))' % (c_tree(st['a']), c_tree(st['b']), c_obs(st['ab']), c_obs(st['ba']),
+                                                                  c_obs(st['aa']), c_obs(st['an'])) for st in o['steps']])
+
+    def oracle(self, case, o):
+        if o['mutated']:
+            return 'an operand was modified by diff(): ' + ','.join(o['mutated'])
+        if o['unstable']:
+            return 'the same pair compared again gave another answer: ' + json.dumps(o['unstable'][0])
+        for i, st in enumerate(o['steps']):
+            why = judge({'a': st['a'], 'b': st['b']}, st)
+            if why:
+                return 'step %d (%s): %s' % (i, ','.join(case['edits'][i]), why)
+        last = o['steps'][-1]
+        if last['ab'] is not None or last['ba'] is not None:
+            return 'after undoing every edit a difference is still reported: ' + json.dumps([last['ab'], last['ba']])
+        return None
+
+    def key(self, case, o):
+        return stable_hash([case['start'], case['steps']])
+
+    def describe(self, case, o):
+        return {'edits_per_step': case['edits'], 'start': case['start'],
+                'impl': [{'old.diff(new)': st['ab'], 'new.diff(old)': st['ba']} for st in o['steps']]}
+
+    def histogram(self, cases, obs):
+        h = {'steps_total': 0, 'steps_with_difference': 0, 'final_undo_none': 0, 'edits': {}}
+        for c, o in zip(cases, obs):
+            h['steps_total'] += len(o['steps'])
+            h['steps_with_difference'] += sum(1 for st in o['steps'] if st['ab'] is not None)
+            h['final_undo_none'] += o['steps'][-1]['ab'] is None
+            for es in c['edits']:
+                for e in es:
+                    h['edits'][e] = h['edits'].get(e, 0) + 1
+        return h
+
+    def shrink(self, case, failing):
+        case = copy.deepcopy(case)
+        i = 0
+        while i < len(case['steps']) - 1 and len(case['steps']) > 2:
+            c2 = copy.deepcopy(case)
+            del c2['steps'][i]
+            del c2['edits'][i]
+            if failing(c2):
+                case = c2
+            else:
+                i += 1
+        return case
+
+
+# ----------------------------------------------------------------------------------------------
+# Topology.diff on ExperimentTopology pairs built through the public API (copy = serialize/load, then edit)
+# ----------------------------------------------------------------------------------------------
+# Topology.diff needs two Cypher queries (Neo4jPropertyGraph.get_graph_diff / get_graph_property_diff); there is no
+# Neo4j server here and the NetworkX backend raises "Not implementable".  The harness stands in for exactly these two
+# methods with a Python evaluation of the query text as read in Model/TopoDiff17.v (modelled not verified), pinned by
+# a hash of their source: an edit of the queries makes the static obligation `topology-query-pin` fail (fail closed).
+QUERY_PIN = '203cec2fd8a4df68b6bf5dbf4a166fabbb6fe18f'   # sha1 of the two method sources the stand-in was written against
+CLASSES = ('NetworkNode', 'Component', 'NetworkService', 'ConnectionPoint')
+TPROPS = ('Labels', 'Capacities', 'UserData')
+
+
+def query_source_hash():
+    import inspect, hashlib as _h
+    from fim.graph.neo4j_property_graph import Neo4jPropertyGraph as NG
+    src = inspect.getsource(NG.get_graph_diff) + inspect.getsource(NG.get_graph_property_diff)
+    return _h.sha1(src.encode()).hexdigest()
+
+
+def class_nodes(gm, label):
+    out = []
+    for i in gm.get_all_nodes_by_class(label=label):
+        _, p = gm.get_node_properties(node_id=i)
+        d = dict(p)
+        d['NodeID'] = i
+        out.append(d)
+    return out
+
+
+def standin_graph_diff(self, other_graph, label):
+    A, B = class_nodes(self, label), class_nodes(other_graph, label)
+    if not A or not B:          # MATCH .. WITH n MATCH ..: no row to aggregate
+        return [], []
+    AN, BN = {x['NodeID'] for x in A}, {x['NodeID'] for x in B}
+    return [x for x in A if x['NodeID'] not in BN], [x for x in B if x['NodeID'] not in AN]
+
+
+def standin_graph_property_diff(self, other_graph, label):
+    A, B = class_nodes(self, label), class_nodes(other_graph, label)
+    rows = []
+    for prop in TPROPS:          # three one-row subqueries, UNION (duplicate rows removed), the code reads row 0
+        ns, n1s = [], []
+        for n in A:
+            for n1 in B:
+                if n['NodeID'] != n1['NodeID']:
+                    continue
+                x, y = n.get(prop), n1.get(prop)
+                if (x is not None and y is not None and x != y) or (x is not None and y is None) or (x is None and y is not None):
+                    ns.append(n)
+                    n1s.append(n1)
+        if (ns, n1s) not in rows:
+            rows.append((ns, n1s))
+    return rows[0]
+
+
+def install_standin():
+    from fim.graph.networkx_property_graph import NetworkXPropertyGraph as NX
+    if getattr(NX, '_c17_standin', False):
+        return
+    NX.get_graph_diff = standin_graph_diff
+    NX.get_graph_property_diff = standin_graph_property_diff
+    NX._c17_standin = True
+
+
+MODELS = {'SmartNIC': 'SmartNIC_ConnectX_6', 'SharedNIC': 'SharedNIC_ConnectX_6', 'GPU': 'GPU_RTX6000', 'NVME': 'NVME_P4510'}
+T_LAB = [None, {'local_name': 'Bob'}, {'local_name': 'Henry'}, {'ipv4': '10.0.0.1'}, {'ipv4': ['10.0.0.1', '10.0.0.2']}]
+T_CAP = [None, {'core': 2}, {'core': 4, 'ram': 8}, {'bw': 10}, {'unit': 1}]
+T_UD = [None, ['obj', {'a': 1}], ['text', '{"a": 1}'], ['obj', {'a': 1, 'b': 2}], ['obj', {'k': [1, 2]}]]
+
+
+def g_topo(rng):
+    nodes = []
+    for i in range(rng.choice([1, 2, 2, 3])):
+        comps = []
+        if rng.random() < 0.8:
+            for j in range(rng.choice([1, 1, 2, 3])):
+                comps.append({'name': 'c%d%d' % (i, j), 'kind': rng.choice(['SmartNIC', 'SharedNIC', 'GPU', 'NVME', 'SmartNIC']),
+                              'children': rng.choice([0, 0, 1, 2])})
+        nodes.append({'name': 'Node%d' % i, 'site': rng.choice(['RENC', 'UKY']), 'comps': comps})
+    svcs = []
+    if rng.random() < 0.7:
+        svcs.append({'name': 'br0', 'k': rng.choice([1, 2, 3])})
+    return {'nodes': nodes, 'svcs': svcs}
+
+
+T_EDITS = ['set', 'set', 'set', 'set', 'add_node', 'remove_node', 'add_comp', 'remove_comp', 'add_svc', 'remove_svc',
+           'add_child', 'remove_child', 'set_pair']
+
+
+def g_topo_case(rng):
+    base = g_topo(rng)
+    r = rng.random()
+    n = 0 if r < 0.08 else 1 if r < 0.4 else rng.randint(2, 5)
+    edits = [{'op': rng.choice(T_EDITS), 'pick': rng.randrange(10 ** 6), 'prop': rng.choice(['lab', 'cap', 'ud']),
+              'val': rng.randrange(10 ** 6)} for _ in range(n)]
+    return {'level': 'topo', 'base': base, 'edits': edits}
+
+
+def build_topo(base):
+    import fim.user as f
+    t = f.ExperimentTopology()
+    for n in base['nodes']:
+        nd = t.add_node(name=n['name'], site=n['site'])
+        for c in n['comps']:
+            comp = nd.add_component(name=c['name'], model_type=f.ComponentModelType[MODELS[c['kind']]])
+            if c['kind'] == 'SmartNIC':
+                for k in range(c['children']):
+                    from fim.slivers.capacities_labels import Labels
+                    comp.interface_list[0].add_child_interface(name='%s-ch%d' % (c['name'], k), labels=Labels(vlan=str(100 + k)))
+    for sv in base['svcs']:
+        ports = free_ports(t)[:sv['k']]
+        if ports:
+            t.add_network_service(name=sv['name'], nstype=f.ServiceType.L2Bridge, interfaces=ports)
+    return t
+
+
+def free_ports(t):
+    out = []
+    for nd in t.nodes.values():
+        for c in nd.components.values():
+            for i in c.interface_list:
+                try:
+                    if not i.get_peers():
+                        out.append(i)
+                except Exception:
+                    pass
+    return out
+
+
+def elements(t):
+    """every element of a topology that carries labels/capacities/user data, in a deterministic order"""
+    out = []
+    for nd in t.nodes.values():
+        out.append(nd)
+        for c in nd.components.values():
+            out.append(c)
+            out.extend(c.interface_list)
+            for i in c.interface_list:
+                try:
+                    out.extend(i.interface_list)
+                except Exception:
+                    pass
+    for sv in t.network_services.values():
+        out.append(sv)
+        out.extend(sv.interface_list)
+    return out
+
+
+def apply_topo_edit(t, e, done):
+    import fim.user as f
+    from fim.slivers.capacities_labels import Labels, Capacities
+    from fim.slivers.json_data import UserData
+    op, pick, val = e['op'], e['pick'], e['val']
+
+    def setprop(el, prop, v):
+        if prop == 'lab':
+            el.labels = None if v is None else Labels(**v)
+        elif prop == 'cap':
+            el.capacities = None if v is None else Capacities(**v)
+        else:
+            el.user_data = None if v is None else UserData(v[1])
+    try:
+        if op in ('set', 'set_pair'):
+            els = elements(t)
+            if not els:
+                return
+            el = els[pick % len(els)]
+            pool = {'lab': T_LAB, 'cap': T_CAP, 'ud': T_UD}[e['prop']]
+            setprop(el, e['prop'], copy.deepcopy(pool[val % len(pool)]))
+            if op == 'set_pair':      # labels AND another property of the same element
+                setprop(el, 'lab', copy.deepcopy(T_LAB[1 + val % (len(T_LAB) - 1)]))
+            done.append('%s:%s:%s' % (op, type(el).__name__, e['prop']))
+        elif op == 'add_node':
+            nd = t.add_node(name='New%d' % (pick % 50), site='RENC')
+            if val % 2:
+                nd.add_component(name='nc%d' % (pick % 50), model_type=f.ComponentModelType.SmartNIC_ConnectX_6)
+            done.append(op)
+        elif op == 'remove_node':
+            names = list(t.nodes.keys())
+            if names:
+                t.remove_node(name=names[pick % len(names)])
+                done.append(op)
+        elif op == 'add_comp':
+            nds = list(t.nodes.values())
+            if nds:
+                kind = ['GPU', 'SmartNIC', 'SharedNIC', 'NVME'][val % 4]
+                nds[pick % len(nds)].add_component(name='x%d' % (pick % 97), model_type=f.ComponentModelType[MODELS[kind]])
+                done.append(op + ':' + kind)
+        elif op == 'remove_comp':
+            cs = [(nd, c) for nd in t.nodes.values() for c in nd.components.keys()]
+            if cs:
+                nd, c = cs[pick % len(cs)]
+                nd.remove_component(name=c)
+                done.append(op)
+        elif op == 'add_svc':
+            ports = free_ports(t)
+            if ports:
+                t.add_network_service(name='ns%d' % (pick % 97), nstype=f.ServiceType.L2Bridge, interfaces=ports[:1 + val % 2])
+                done.append(op)
+        elif op == 'remove_svc':
+            names = list(t.network_services.keys())
+            if names:
+                t.remove_network_service(name=names[pick % len(names)])
+                done.append(op)
+        elif op == 'add_child':
+            ded = [i for i in elements(t) if type(i).__name__ == 'Interface' and str(i.type) == 'DedicatedPort']
+            if ded:
+                ded[pick % len(ded)].add_child_interface(name='k%d' % (pick % 97), labels=Labels(vlan=str(200 + pick % 50)))
+                done.append(op)
+        elif op == 'remove_child':
+            ch = [(i, c) for i in elements(t) if type(i).__name__ == 'Interface' and str(i.type) == 'DedicatedPort'
+                  for c in i.interface_list]
+            if ch:
+                i, c = ch[pick % len(ch)]
+                i.remove_child_interface(name=c.name)
+                done.append(op)
+    except Exception as ex:
+        done.append('%s!%s' % (op, type(ex).__name__))
+
+
+def flat_view(t):
+    """per class: [NodeID, Name, Labels, Capacities, UserData (stored strings or None), parent NodeID]"""
+    from fim.user.node import Node
+    from fim.user.component import Component
+    from fim.user.network_service import NetworkService
+    from fim.user.interface import Interface
+    cls_of = {'NetworkNode': Node, 'Component': Component, 'NetworkService': NetworkService, 'ConnectionPoint': Interface}
+    out = {}
+    for label in CLASSES:
+        rows = []
+        for d in class_nodes(t.graph_model, label):
+            parent = None
+            if label != 'NetworkNode':
+                try:
+                    pe = t.get_parent_element(cls_of[label](name=d['Name'], node_id=d['NodeID'], topo=t))
+                    parent = pe.node_id if pe is not None else None
+                except Exception:
+                    parent = None
+            rows.append([d['NodeID'], d['Name'], d.get('Labels'), d.get('Capacities'), d.get('UserData'), parent])
+        out[label] = rows
+    return out
+
+
+def canon_topo(d):
+    def ids(s):
+        return sorted([[x.name, x.node_id] for x in s], key=lambda p: p[1])
+
+    def idf(l):
+        return sorted([[x.name, x.node_id, fl.value] for x, fl in l], key=lambda p: p[1])
+    return {'added': [ids(getattr(d.added, n)) for n in ('nodes', 'components', 'services', 'interfaces')],
+            'removed': [ids(getattr(d.removed, n)) for n in ('nodes', 'components', 'services', 'interfaces')],
+            'modified': [idf(getattr(d.modified, n)) for n in ('nodes', 'components', 'services', 'interfaces')]}
+
+
+def run_tdiff(x, y):
+    try:
+        return canon_topo(x.diff(y))
+    except Exception as e:
+        return {'err': type(e).__name__}
+
+
+SLOT = {'NetworkNode': 0, 'Component': 1, 'NetworkService': 2, 'ConnectionPoint': 3}
+
+
+def t_expected(va, vb, t1=False, t2=False):
+    """the statement over the two flat views: added/removed = NodeID-set differences per class (children of an added/
+    removed parent are left to the parent, as documented), modified = exact flags of what differs.
+    t1/t2: the same with the known deviation T1 (a class empty on one side yields nothing) / T2 (only elements whose
+    labels differ are looked at) applied - used ONLY to recognise the known findings precisely."""
+    def only(x, y, label):
+        if t1 and ((not x[label]) or (not y[label])):
+            return []
+        ys = {r[0] for r in y[label]}
+        return [r for r in x[label] if r[0] not in ys]
+
+    def excl(view, other):
+        nodes, comps = only(view, other, 'NetworkNode'), only(view, other, 'Component')
+        nss, ifs = only(view, other, 'NetworkService'), only(view, other, 'ConnectionPoint')
+        nid = {r[0] for r in nodes}
+        ex_c = {r[0] for r in comps if r[5] in nid}
+        ex_s = {r[0] for r in nss if r[5] is not None and r[5] in (nid | ex_c)}
+        sid = {r[0] for r in nss}
+        ex_i = {r[0] for r in ifs if r[5] in sid}
+        srt = lambda l: sorted([[r[1], r[0]] for r in l], key=lambda p: p[1])
+        return [srt(nodes), srt([r for r in comps if r[0] not in ex_c]), srt([r for r in nss if r[0] not in ex_s]),
+                srt([r for r in ifs if r[0] not in ex_i])]
+    mod = [[], [], [], []]
+    for label in CLASSES:
+        b = {r[0]: r for r in vb[label]}
+        for r in va[label]:
+            if r[0] in b:
+                q = b[r[0]]
+                fl = (1 if r[2] != q[2] else 0) | (2 if r[3] != q[3] else 0) | (4 if r[4] != q[4] else 0)
+                if fl and not (t2 and not (fl & 1)):
+                    mod[SLOT[label]].append([r[1], r[0], fl])
+        mod[SLOT[label]].sort(key=lambda p: p[1])
+    return {'added': excl(vb, va), 'removed': excl(va, vb), 'modified': mod}
+
+
+def t_deviation(va, vb, got, exp):
+    """the smallest set of known-deviation tags that explains got != exp COMPLETELY, or None"""
+    for tags in (('T1',), ('T2',), ('T1', 'T2')):
+        if got == t_expected(va, vb, t1='T1' in tags, t2='T2' in tags):
+            return set(tags)
+    return None
+
+
+class TopoS(Stream):
+    name = 'topology'
+    header = ('From Coq Require Import List ZArith NArith Bool.\nImport ListNotations.\n'
+              'From FIM Require Import Model.Diff17 Model.TopoDiff17.\nOpen Scope N_scope.\n')
+    case_type = '(topo * topo) * (obs * obs * obs)'
+    check_fn = 'check_topo'
+    shard = 100
+    counts = (100, 1500)
+    rule = ('ExperimentTopology pairs built through the public API (add_node/add_component/add_network_service/'
+            'add_child_interface), copy = serialize + load under a new graph id, then 0-5 edits on the copy (set/unset labels, '
+            'capacities, user data on nodes/components/services/interfaces; add/remove node, component, service, '
+            'sub-interface); old.diff(new), new.diff(old), old.diff(second copy), each twice with graph snapshots; the two '
+            'Cypher queries are answered by the pinned stand-in; non-trivial = at least one applied edit; distinct by flat views')
+
+    def gen(self, rng, tier):
+        n = self.counts[0] if tier == 'quick' else self.counts[1]
+        return [g_topo_case(rng) for _ in range(n)]
+
+    def corpus(self):
+        return [c for c in (topo_witness_case(1), topo_witness_case(2))]
+
+    def observe(self, case):
+        import uuid
+        import fim.user as f
+        install_standin()
+        a = build_topo(case['base'])
+        gs = a.serialize()
+        b = f.ExperimentTopology()
+        b.load(graph_string=gs, new_graph_id=str(uuid.uuid4()))
+        a2 = f.ExperimentTopology()
+        a2.load(graph_string=gs, new_graph_id=str(uuid.uuid4()))
+        done = []
+        for e in case['edits']:
+            apply_topo_edit(b, e, done)
+        va, vb = flat_view(a), flat_view(b)
+        o = {'va': va, 'vb': vb, 'applied': done, 'mutated': [], 'unstable': []}
+        for tag, x, y in (('ab', a, b), ('ba', b, a), ('aa', a, a2)):
+            r1 = run_tdiff(x, y)
+            r2 = run_tdiff(x, y)
+            if r1 != r2:
+                o['unstable'].append(tag)
+            o[tag] = r1
+        if flat_view(a) != va or flat_view(b) != vb:
+            o['mutated'].append('graphs')
+        for t in (a, b, a2):
+            try:
+                t.graph_model.delete_graph()
+            except Exception:
+                pass
+        return o
+
+    def to_coq(self, case, o):
+        def gn(r):
+            tok = lambda kind, v: 'None' if v is None else '(Some %s)' % cN(intern(kind, v))
+            return '(mkG %s %s %s %s %s %s)' % (cN(intern('gid', r[0])), cN(intern('name', r[1])), tok('tlab', r[2]),
+                                                tok('tcap', r[3]), tok('tud', r[4]),
+                                                'None' if r[5] is None else '(Some %s)' % cN(intern('gid', r[5])))
+
+        def tp(v):
+            return '(mkTopo %s %s %s %s)' % (clist([gn(r) for r in v['NetworkNode']]), clist([gn(r) for r in v['Component']]),
+                                             clist([gn(r) for r in v['NetworkService']]), clist([gn(r) for r in v['ConnectionPoint']]))
+
+        def ob(d):
+            if 'err' in d:
+                return '(ORaised 0)'
+            ids = lambda l: clist(['(%s, %s)' % (cN(intern('name', n)), cN(intern('gid', i))) for n, i in l])
+            idf = lambda l: clist(['((%s, %s), %s)' % (cN(intern('name', n)), cN(intern('gid', i)), cN(fl)) for n, i, fl in l])
+            return '(ODiff %s %s %s)' % (clist([ids(l) for l in d['added']]), clist([ids(l) for l in d['removed']]),
+                                         clist([idf(l) for l in d['modified']]))
+        return '((%s,\n    %s),\n   (%s, %s, %s))' % (tp(o['va']), tp(o['vb']), ob(o['ab']), ob(o['ba']), ob(o['aa']))
+
+    def oracle(self, case, o):
+        if o['mutated']:
+            return 'Topology.diff modified one of the graphs'
+        if o['unstable']:
+            return 'Topology.diff on the same pair gave another answer the second time: ' + ','.join(o['unstable'])
+        e0 = {'added': [[], [], [], []], 'removed': [[], [], [], []], 'modified': [[], [], [], []]}
+        if o['aa'] != e0:
+            return 'topology: identical copy reported as different: ' + json.dumps(o['aa'])[:400]
+        tags = set()
+        for tag, x, y in (('ab', o['va'], o['vb']), ('ba', o['vb'], o['va'])):
+            exp = t_expected(x, y)
+            if o[tag] != exp:
+                dv = t_deviation(x, y, o[tag], exp)
+                if dv is None:
+                    return 'topology not exact (%s): reported %s expected %s' % (tag, json.dumps(o[tag])[:600], json.dumps(exp)[:600])
+                tags |= dv
+        if 'err' not in o['ab'] and 'err' not in o['ba']:
+            if o['ab']['added'] != o['ba']['removed'] or o['ab']['removed'] != o['ba']['added']:
+                return 'topology: added(old,new) is not removed(new,old)'
+        if tags:
+            return 'topology-diff-deviations-only ' + ','.join(sorted(tags))
+        return None
+
+    def key(self, case, o):
+        return stable_hash([o['applied'], [[r[1:5] for r in o['va'][c]] for c in CLASSES],
+                            [[r[1:5] for r in o['vb'][c]] for c in CLASSES]]) if o['applied'] else None
+
+    def describe(self, case, o):
+        return {'base': case['base'], 'edits_applied': o['applied'], 'impl': {'old.diff(new)': o['ab'], 'new.diff(old)': o['ba']}}
+
+    def histogram(self, cases, obs):
+        h = {'edits': {}, 'with_added': 0, 'with_removed': 0, 'with_modified': 0, 'graph_nodes_avg': 0, 'known_deviation_cases': 0}
+        tot = 0
+        for c, o in zip(cases, obs):
+            for e in o['applied']:
+                h['edits'][e] = h['edits'].get(e, 0) + 1
+            tot += sum(len(o['va'][k]) for k in CLASSES)
+            if 'err' not in o['ab']:
+                h['with_added'] += any(o['ab']['added'])
+                h['with_removed'] += any(o['ab']['removed'])
+                h['with_modified'] += any(o['ab']['modified'])
+            w = self.oracle(c, o)
+            h['known_deviation_cases'] += bool(w and w.startswith('topology-diff-deviations-only'))
+        h['graph_nodes_avg'] = round(tot / max(1, len(cases)), 1)
+        return h
+
+    def shrink(self, case, failing):
+        case = copy.deepcopy(case)
+        i = 0
+        while i < len(case['edits']):
+            c2 = copy.deepcopy(case)
+            del c2['edits'][i]
+            if failing(c2):
+                case = c2
+            else:
+                i += 1
+        return case
+
+
+def topo_witness_case(k):
+    if k == 1:      # wt1: a node whose capacities change while its labels do not
+        return {'level': 'topo', 'base': {'nodes': [{'name': 'Node0', 'site': 'RENC', 'comps': []}], 'svcs': []},
+                'edits': [{'op': 'set', 'pick': 0, 'prop': 'cap', 'val': 1}]}
+    # wt2: the only component of the topology is removed
+    return {'level': 'topo', 'base': {'nodes': [{'name': 'Node0', 'site': 'RENC',
+                                                 'comps': [{'name': 'c00', 'kind': 'GPU', 'children': 0}]}], 'svcs': []},
+            'edits': [{'op': 'remove_comp', 'pick': 0, 'prop': 'lab', 'val': 0}]}
+
+
+def replay_topo_witness(k):
+    c = topo_witness_case(k)
+    o = TopoS().observe(c)
+    exp = t_expected(o['va'], o['vb'])
+    e0 = {'added': [[], [], [], []], 'removed': [[], [], [], []], 'modified': [[], [], [], []]}
+    still = o['ab'] == e0 and exp != e0
+    return still, {'case': c, 'implementation (through the query stand-in)': o['ab'], 'expected': exp}
+
+
+# ----------------------------------------------------------------------------------------------
 # the refuted witness of Proofs/Diff17Refuted.v, replayed on the implementation
 # ----------------------------------------------------------------------------------------------
 
@@ -857,8 +1555,8 @@ def replay_port_flag_witness():
 class C17(Check):
     pid = 'C17'
     translators = []
-    model_targets = ['Model/Diff17.vo']
-    streams = [NodeS(), SvcS(), IfS(), MalformedS()]
+    model_targets = ['Model/Diff17.vo', 'Model/TopoDiff17.vo']
+    streams = [NodeS(), SvcS(), IfS(), MalformedS(), HistoryS(), TopoS()]
     trusted_base = [
         'Coq 8.16.1 kernel (coqc), vm_compute for the correspondence evaluation; no native_compute',
         'Print Assumptions of every C17 theorem: Closed under the global context (no axioms)',
@@ -877,11 +1575,17 @@ class C17(Check):
     ]
 
     def refuted_witnesses(self):
-        return [('C17_service_flags_exact_refuted', replay_port_flag_witness)]
+        return [('C17_service_flags_exact_refuted', replay_port_flag_witness),
+                ('C17_topology_exact_refuted_silent_change', lambda: replay_topo_witness(1)),
+                ('C17_topology_exact_refuted_last_of_class', lambda: replay_topo_witness(2))]
 
     def extra_static(self, ctx):
         v = service_variant()
-        return [{'name': 'service-variant-probe', 'ok': True,
+        h = query_source_hash()
+        pin = {'name': 'topology-query-pin', 'ok': h == QUERY_PIN,
+               'detail': 'source of Neo4jPropertyGraph.get_graph_diff/get_graph_property_diff %s the text the query stand-in '
+                         'of the topology stream evaluates (sha1 %s)' % ('is' if h == QUERY_PIN else 'is NOT', h)}
+        return [pin, {'name': 'service-variant-probe', 'ok': True,
                  'detail': ('implementation shows finding C17-1 (witness fails): service stream compared with svc_diff'
                             if v == 'current' else
                             'implementation no longer shows finding C17-1: service stream compared with svc_diff_fixed, '
